@@ -38,13 +38,18 @@ def _is_type(v):
 def _m_req(c):
   h = c.old
   s = ref(c['self'])
+  # `node` is ANY value: __iter__ and replace() call _matches on every value of the DAG (lists,
+  # leaves, ...), so nothing is required of it except what the annotation
+  # `buildable_type: Type[Buildable]` says: an instance of buildable_type is a Buildable.
   return z3.And(is_VRef(c['self']), z3.Not(cls_in(h.cls(s), 'Buildable')),
                 is_VBool(h.fld(s, 'match_subclasses')),
-                isref(h, c['node'], 'Buildable'),
                 z3.Or(is_VNone(h.fld(s, 'fn_or_cls')), is_VRef(h.fld(s, 'fn_or_cls'))),
-                is_VRef(h.fld(ref(c['node']), '__fn_or_cls__')),
-                # user values are never instances of Fiddle-private classes (DESIGN §7.4)
-                z3.Not(cls_is(h.cls(ref(h.fld(ref(c['node']), '__fn_or_cls__'))), '_Placeholder')))
+                z3.Implies(instance_of(c['node'], h.fld(s, 'buildable_type')), z3.And(
+                    isref(h, c['node'], 'Buildable'),
+                    is_VRef(h.fld(ref(c['node']), '__fn_or_cls__')),
+                    # user values are never instances of Fiddle-private classes (DESIGN §7.4)
+                    z3.Not(cls_is(h.cls(ref(h.fld(ref(c['node']), '__fn_or_cls__'))),
+                                  '_Placeholder')))))
 
 
 def _m_post(c):
